@@ -83,24 +83,51 @@ def as_table(ctx, rec, val, N, ncomp, name, sig):
     """(N, ncomp) view of a vector/tensor result given flat (N*ncomp,) or 2d; MISSING on a wrong shape"""
     A = np.asarray(val, float)
     ok = A.size == N * ncomp and (A.ndim == 1 or (A.ndim == 2 and A.shape[0] == N))
-    amb = ambiguity(ctx.mesh, A)
     if not rec.require(ok, "result_shape", f"{ctx.kind} {ctx.types}: Result({name!r}) has shape {A.shape}, expected "
-                       f"{N * ncomp} values = ({N}, {ncomp}) (Nn={ctx.mesh.Nn}, Ne={ctx.mesh.Ne})", ambiguous=amb, **sig):
+                       f"{N * ncomp} values = ({N}, {ncomp}) (Nn={ctx.mesh.Nn}, Ne={ctx.mesh.Ne})", **sig):
         return MISSING
     return A.reshape(N, ncomp)
 
 
-def ambiguity(mesh, A):
-    """class of arrays whose storage (nodes / elements) cannot be told from the array itself"""
-    A = np.asarray(A)
+ELEM_STORED = {"Wdef_e", "ZZ1_e", "psiP", "W_e", "N", "Mx", "My", "Mz", "Ty", "Tz", "Svm", "Evm", "Stress", "Strain", "Srain",
+               "Piola-Kirchhoff", "Green-Lagrange", "ux'", "rx'", "ry'", "rz'"}
+TABLES = {"Stress", "Strain", "Srain", "Piola-Kirchhoff", "Green-Lagrange", "displacement_matrix"}
+
+
+def source_of(ctx, name):
+    """(storage, ncomp, layout) of the array a result name is computed as, before its conversion to the requested form"""
+    if name in TABLES:
+        return ("elems" if name in ELEM_STORED else "nodes"), 3, "table"
+    if name in ELEM_STORED or (len(name) == 3 and name[0] in "SE" and name[1:] in COMP6):
+        return "elems", 1, "scalar"
+    if ctx.sim == "inelastic" and name in [_name(n) for n in ctx.simu.material.layout.slots]:
+        return "elems", 1, "scalar"
+    if name in ("displacement", "speed", "accel", "u", "v", "a") and ctx.ncomp > 1:
+        return "nodes", ctx.ncomp, "flat"
+    return "nodes", 1, "scalar"
+
+
+def amb_class(mesh, storage, ncomp, layout):
+    """class of arrays whose storage (nodes / elements) cannot be told from their size alone"""
     Nn, Ne = mesh.Nn, mesh.Ne
-    if A.ndim == 0:
-        return "scalar"
-    if A.ndim >= 2 and ((A.shape[0] == Nn) != (A.shape[0] == Ne)):
+    if layout == "table":
+        return "2d_Nn_eq_Ne" if Nn == Ne else "no"
+    size = (Nn if storage == "nodes" else Ne) * ncomp
+    if not (size % Nn == 0 and size % Ne == 0):
         return "no"
-    if A.size % Nn == 0 and A.size % Ne == 0:
-        return "1d_size_divisible_by_Nn_and_Ne" if A.ndim == 1 else "2d_Nn_eq_Ne"
-    return "no"
+    if Nn == Ne:
+        return "1d_Nn_eq_Ne"
+    if layout == "scalar":
+        return "1d_scalar"  # the exact length (Nn xor Ne) tells the storage
+    return "1d_flat_eq_Ne" if size == Ne else "1d_flat_nodal_vector"
+
+
+def ambiguity(ctx, name):
+    return amb_class(ctx.mesh, *source_of(ctx, name))
+
+
+def mksig(ctx, base, name, form, family):
+    return dict(base, name=name, form=form, family=family, ambiguous=ambiguity(ctx, name))
 
 
 def tensor_names(width):
@@ -139,6 +166,8 @@ def check_components(case, rec):
     Nn, Ne = mesh.Nn, mesh.Ne
     ncompared = 0
     done = set()
+    if sim in ("phasefield", "hyperelastic", "inelastic") and not all(np.all(np.isfinite(F)) for F in cs.tensor_fields(ctx, "stress")):
+        raise Inconclusive("non-finite stress field (the split / law is decided by C17-C19)")
 
     def want(name):
         return name in avail and (only is None or name in only)
@@ -151,7 +180,7 @@ def check_components(case, rec):
         for vname, injected, comps, k in vector_groups(ctx):
             V = MISSING
             if vname in avail and (only is None or vname in only or any(c in only for c in comps)):
-                sig = dict(base, name=vname, form=form, family=k)
+                sig = mksig(ctx, base, vname, form, k)
                 val = query(ctx, rec, vname, nodeValues, sig)
                 done.add(vname)
                 if val is not MISSING:
@@ -163,7 +192,7 @@ def check_components(case, rec):
             for i, cname in enumerate(comps):
                 if not want(cname):
                     continue
-                sig = dict(base, name=cname, form=form, family=k)
+                sig = mksig(ctx, base, cname, form, k)
                 done.add(cname)
                 rec.label(f"q:{sim}:{cname}")
                 val = query(ctx, rec, cname, nodeValues, sig)
@@ -171,7 +200,7 @@ def check_components(case, rec):
                     continue
                 c = np.asarray(val, float)
                 if not rec.require(c.shape == (N,), "result_shape", f"{ctx.kind} {ctx.types}: Result({cname!r}, nodeValues="
-                                   f"{nodeValues}) has shape {c.shape}, expected ({N},)", ambiguous=ambiguity(mesh, c), **sig):
+                                   f"{nodeValues}) has shape {c.shape}, expected ({N},)", **sig):
                     continue
                 if nodeValues and injected is not None:
                     rec.close(c - injected[:, i], np.abs(injected).max(), TOL, "vector_component",
@@ -190,15 +219,15 @@ def check_components(case, rec):
             width = None
             cnames_all = [prefix + c for c in COMP6]
             touched = only is None or tname in only or any(c in only for c in cnames_all)
-            if tname in avail and touched:
-                sig = dict(base, name=tname, form=form, family=which)
+            if tname in avail and (only is None or tname in only):
+                sig = mksig(ctx, base, tname, form, which)
                 val = query(ctx, rec, tname, nodeValues, sig)
                 done.add(tname)
                 if val is not MISSING:
                     A = np.asarray(val, float)
                     ok = A.ndim == 2 and A.shape[0] == N and A.shape[1] in (1, 3, 6)
                     if rec.require(ok, "result_shape", f"{ctx.kind} {ctx.types}: Result({tname!r}, nodeValues={nodeValues}) has "
-                                   f"shape {A.shape}, expected ({N}, 3|6)", ambiguous=ambiguity(mesh, A), **sig):
+                                   f"shape {A.shape}, expected ({N}, 3|6)", **sig):
                         T, width = A, A.shape[1]
             # the integration-point field the components derive from (element form): element mean per group
             F_e = None
@@ -218,7 +247,7 @@ def check_components(case, rec):
                 cname = prefix + cn
                 if not want(cname):
                     continue
-                sig = dict(base, name=cname, form=form, family=which)
+                sig = mksig(ctx, base, cname, form, which)
                 done.add(cname)
                 rec.label(f"q:{sim}:{cname}")
                 val = query(ctx, rec, cname, nodeValues, sig)
@@ -226,7 +255,7 @@ def check_components(case, rec):
                     continue
                 c = np.asarray(val, float)
                 if not rec.require(c.shape == (N,), "result_shape", f"{ctx.kind} {ctx.types}: Result({cname!r}, nodeValues="
-                                   f"{nodeValues}) has shape {c.shape}, expected ({N},)", ambiguous=ambiguity(mesh, c), **sig):
+                                   f"{nodeValues}) has shape {c.shape}, expected ({N},)", **sig):
                     continue
                 if T is not MISSING:
                     rec.close(c - T[:, i], np.abs(T).max(), TOL, "tensor_component",
@@ -247,7 +276,7 @@ def check_components(case, rec):
         for sname, arr in state_scalars(ctx, nodeValues):
             if not want(sname):
                 continue
-            sig = dict(base, name=sname, form=form, family="state")
+            sig = mksig(ctx, base, sname, form, "state")
             done.add(sname)
             rec.label(f"q:{sim}:{sname}")
             val = query(ctx, rec, sname, nodeValues, sig)
@@ -255,7 +284,7 @@ def check_components(case, rec):
                 continue
             c = np.asarray(val, float)
             if rec.require(c.shape == (N,), "result_shape", f"{ctx.kind}: Result({sname!r}, nodeValues={nodeValues}) has shape "
-                           f"{c.shape}, expected ({N},)", ambiguous=ambiguity(mesh, c), **sig):
+                           f"{c.shape}, expected ({N},)", **sig):
                 rec.close(c - arr, np.abs(arr).max() + 1e-300, TOL, "scalar_vs_state",
                           f"{ctx.kind}: Result({sname!r}, nodeValues={nodeValues}) differs from the injected field", **sig)
                 ncompared += 1
@@ -264,7 +293,7 @@ def check_components(case, rec):
         for name in avail:
             if name in done or (only is not None and name not in only):
                 continue
-            sig = dict(base, name=name, form=form, family=family_of(ctx, name))
+            sig = mksig(ctx, base, name, form, family_of(ctx, name))
             rec.label(f"q:{sim}:{name}")
             val = query(ctx, rec, name, nodeValues, sig)
             if val is MISSING:
@@ -274,7 +303,7 @@ def check_components(case, rec):
             if A.ndim >= 1:
                 ok = A.shape[0] == N or (A.ndim == 1 and A.size % N == 0 and A.size // N == ctx.ncomp)
                 rec.require(ok, "result_shape", f"{ctx.kind} {ctx.types}: Result({name!r}, nodeValues={nodeValues}) has shape "
-                            f"{A.shape}, expected leading size {N}", ambiguous=ambiguity(mesh, A), **sig)
+                            f"{A.shape}, expected leading size {N}", **sig)
     rec.nontrivial(ncompared > 0 and cs.distinct_nonzero(ctx.u, ctx.v, ctx.a))
 
 
@@ -352,7 +381,7 @@ def beam_generalised(ctx, rec, base, want, done):
         for i, cname in enumerate(names):
             if not want(cname):
                 continue
-            sig = dict(base, name=cname, form="elem", family="beam_" + ("strain" if F is eps_e else "force"))
+            sig = mksig(ctx, base, cname, "elem", "beam_" + ("strain" if F is eps_e else "force"))
             done.add(cname)
             rec.label(f"q:beam:{cname}")
             val = query(ctx, rec, cname, False, sig)
@@ -360,7 +389,7 @@ def beam_generalised(ctx, rec, base, want, done):
                 continue
             c = np.asarray(val, float)
             if not rec.require(c.shape == (ctx.mesh.Ne,), "result_shape", f"{ctx.kind}: Result({cname!r}, nodeValues=False) has "
-                               f"shape {c.shape}", ambiguous=ambiguity(ctx.mesh, c), **sig):
+                               f"shape {c.shape}", **sig):
                 continue
             rec.close(c - F[:, i], np.abs(F).max(), TOL, oracle, f"{ctx.kind} {dim}D: Result({cname!r}) is not the element mean "
                       f"of component {i} of {what} (first values {c[:3]} vs {F[:3, i]})", **sig)
@@ -387,7 +416,7 @@ def check_von_mises(case, rec):
     for rname, which in (("Svm", "stress"), ("Evm", "strain")):
         if rname not in avail:
             continue
-        sig = dict(base, name=rname, form="elem", family=which)
+        sig = mksig(ctx, base, rname, "elem", which)
         fields = cs.tensor_fields(ctx, which)
         if not all(np.all(np.isfinite(F)) for F in fields):
             raise Inconclusive(f"non-finite {which} field (the split / law is decided by C17-C19)")
@@ -399,9 +428,9 @@ def check_von_mises(case, rec):
             continue
         c = np.asarray(val, float)
         if not rec.require(c.shape == (mesh.Ne,), "result_shape", f"{ctx.kind}: Result({rname!r}, nodeValues=False) has shape "
-                           f"{c.shape}, expected ({mesh.Ne},)", ambiguous=ambiguity(mesh, c), **sig):
+                           f"{c.shape}, expected ({mesh.Ne},)", **sig):
             continue
-        rec.close(c - vm_e, scale, 1e-10, "von_mises", f"{ctx.kind} {ctx.types}: Result({rname!r}, nodeValues=False) is not the "
+        rec.close(c - vm_e, scale, TOL, "von_mises", f"{ctx.kind} {ctx.types}: Result({rname!r}, nodeValues=False) is not the "
                   f"per-element mean of the von Mises norm of the {which} at the integration points (first values {c[:3]} vs "
                   f"{vm_e[:3]})", **sig)
         n += 1
@@ -410,8 +439,7 @@ def check_von_mises(case, rec):
         if valn is not MISSING:
             cn = np.asarray(valn, float)
             rec.require(cn.shape == (mesh.Nn,) and bool(np.all(np.isfinite(cn))), "result_shape", f"{ctx.kind}: Result({rname!r}, "
-                        f"nodeValues=True) has shape {cn.shape}, expected ({mesh.Nn},)", ambiguous=ambiguity(mesh, cn),
-                        **dict(sig, form="node"))
+                        f"nodeValues=True) has shape {cn.shape}, expected ({mesh.Nn},)", **dict(sig, form="node"))
     # the deviatoric part must be present, otherwise sqrt(3/2 dev:dev) = 0 does not discriminate
     rec.nontrivial(n > 0 and float(vm_e.min()) > 1e-6 * scale)
 
@@ -490,8 +518,7 @@ def check_conversion(case, rec):
             for nodeValues in (True, False):
                 N = Nn if nodeValues else Ne
                 out = simu.Result(name, nodeValues=nodeValues)
-                size = Nn * nc
-                ambg = "1d_size_divisible_by_Nn_and_Ne" if (lay != "cols2d" and size % Ne == 0) else "no"
+                ambg = amb_class(mesh, "nodes", nc, {"scalar1d": "scalar", "flat1d": "flat", "cols2d": "table"}[lay])
                 rec.label("ambiguous:" + ambg)
                 _const_check(rec, out, N, nc, lay, cc, f"{kind} {types}: Result({name!r}, nodeValues={nodeValues}) of a constant "
                              "field", dict(base, name=name, storage="nodes", target="node" if nodeValues else "elem", layout=lay,
@@ -501,22 +528,27 @@ def check_conversion(case, rec):
 
     if api == "get_node_values":
         storage = "elems"
-        if layout == "flat1d":
+    if layout == "flat1d":
+        # flat (N*dof_n,) vectors are what Result passes for the nodal vector fields of a simulation with dof_n dofs per node
+        if storage == "elems" or api == "get_node_values" or mesh.dim == 1:
             layout = "cols2d"
-    if storage == "elems" and layout == "flat1d":
-        layout = "cols2d"  # no caller stores element values flat
+        else:
+            ncomp = mesh.dim
     N0 = Nn if storage == "nodes" else Ne
     c = np.asarray(consts[:ncomp], float)
     table = np.tile(c, (N0, 1))
     values = table[:, 0].copy() if layout == "scalar1d" else table.copy() if layout == "cols2d" else table.ravel().copy()
-    ambg = ambiguity(mesh, values)
+    ambg = amb_class(mesh, storage, ncomp, {"scalar1d": "scalar", "flat1d": "flat", "cols2d": "table"}[layout])
     rec.label("layout:" + layout, "storage:" + storage, "ambiguous:" + ambg, f"ncomp:{ncomp}")
     if api == "get_node_values":
         out = mesh.Get_Node_Values(values.copy())
         _const_check(rec, out, Nn, ncomp, layout, consts, f"{types}: mesh.Get_Node_Values of a constant {values.shape} element field",
                      dict(base, storage=storage, target="node", layout=layout, ambiguous="no"), mesh)
     else:
-        simu = Simulations.Thermal(mesh, Models.Thermal(k=1.0, c=1.0))
+        if layout == "flat1d":
+            simu = Simulations.Elastic(mesh, Models.Elastic.Isotropic(mesh.dim, E=2.0, v=0.25))
+        else:
+            simu = Simulations.Thermal(mesh, Models.Thermal(k=1.0, c=1.0))
         for nodeValues in (True, False):
             N = Nn if nodeValues else Ne
             out = simu.Results_Reshape_values(values.copy(), nodeValues)
@@ -560,7 +592,7 @@ def check_energy(case, rec):
     for name in ("Wdef", "Wdef_e"):
         if name not in avail:
             continue
-        sig = dict(base, name=name)
+        sig = mksig(ctx, base, name, "elem", "energy")
         rec.label(f"q:{sim}:{name}")
         val = query(ctx, rec, name, False, sig)
         if val is MISSING:
@@ -568,8 +600,8 @@ def check_energy(case, rec):
         W = float(np.sum(np.asarray(val, float)))
         if name == "Wdef_e":
             rec.require(np.asarray(val).shape == (mesh.Ne,), "result_shape", f"Wdef_e shape {np.asarray(val).shape}",
-                        ambiguous=ambiguity(mesh, np.asarray(val)), **sig)
-        rec.close(W - W_ref, scale, 1e-11, "energy", f"{ctx.kind} {ctx.types}: Result({name!r}){'.sum()' if name == 'Wdef_e' else ''} "
+                        **sig)
+        rec.close(W - W_ref, scale, TOL, "energy", f"{ctx.kind} {ctx.types}: Result({name!r}){'.sum()' if name == 'Wdef_e' else ''} "
                   f"= {W!r} vs 1/2 u'Ku = {W_ref!r}", **sig)
     if sim == "beam":
         beam_forces(ctx, rec, base, K, u, avail)
@@ -586,13 +618,13 @@ def beam_forces(ctx, rec, base, K, u, avail):
     for i, name in enumerate(fnames):
         if name not in avail:
             continue
-        sig = dict(base, name=name, form="node", family="beam_nodal_force")
+        sig = mksig(ctx, base, name, "node", "beam_nodal_force")
         rec.label(f"q:beam:{name}")
         val = query(ctx, rec, name, True, sig)
         if val is MISSING:
             continue
         c = np.asarray(val, float)
-        if rec.require(c.shape == (mesh.Nn,), "result_shape", f"Result({name!r}) shape {c.shape}", ambiguous=ambiguity(mesh, c), **sig):
+        if rec.require(c.shape == (mesh.Nn,), "result_shape", f"Result({name!r}) shape {c.shape}", **sig):
             rec.close(c - f[:, i], fscale, TOL, "beam_nodal_force", f"{ctx.kind} {dim}D: Result({name!r}) is not component {i} of K u "
                       f"(first values {c[:3]} vs {f[:3, i]})", **sig)
     # internal forces D B u at the integration points, element mean
@@ -616,13 +648,13 @@ def beam_forces(ctx, rec, base, K, u, avail):
         for i, name in enumerate(nm):
             if name is None or name not in avail:
                 continue
-            sig = dict(base, name=name, form="elem", family="beam_force")
+            sig = mksig(ctx, base, name, "elem", "beam_force")
             rec.label(f"q:beam:{name}")
             val = query(ctx, rec, name, False, sig)
             if val is MISSING:
                 continue
             c = np.asarray(val, float)
-            if rec.require(c.shape == (mesh.Ne,), "result_shape", f"Result({name!r}) shape {c.shape}", ambiguous=ambiguity(mesh, c), **sig):
+            if rec.require(c.shape == (mesh.Ne,), "result_shape", f"Result({name!r}) shape {c.shape}", **sig):
                 rec.close(c - F[:, i], sc, TOL, "beam_internal_force", f"{ctx.kind} {dim}D: Result({name!r}) is not the element mean of "
                           f"component {i} of D B u (first values {c[:3]} vs {F[:3, i]})", **sig)
 
@@ -742,18 +774,18 @@ def _sims(*names):
 
 
 SUBS = [
-    Sub("components_continuum", check_components, gen=_sims("elastic", "hyperelastic", "inelastic", "phasefield"), quick=110,
+    Sub("components_continuum", check_components, gen=_sims("elastic", "hyperelastic", "inelastic", "phasefield"), quick=160,
         thorough=1500, shards=8, doc="named components vs vector/tensor results, the injected state and the integration-point fields"),
-    Sub("components_fields", check_components, gen=_sims("thermal", "weakforms"), quick=80, thorough=1000, shards=4,
+    Sub("components_fields", check_components, gen=_sims("thermal", "weakforms"), quick=160, thorough=1000, shards=4,
         doc="thermal / thermalDot and the u, v, a components of WeakForms vs the injected state"),
-    Sub("components_beam", check_components, gen=_sims("beam"), quick=60, thorough=800, shards=4,
+    Sub("components_beam", check_components, gen=_sims("beam"), quick=80, thorough=800, shards=4,
         doc="beam dof components, generalised strains, internal forces and stresses vs the fields they derive from"),
     Sub("von_mises", check_von_mises, gen=_sims("elastic", "hyperelastic", "inelastic", "phasefield"),
-        quick=100, thorough=1000, shards=4, doc="Svm / Evm vs harness von Mises at the integration points, element mean"),
-    Sub("node_element_conversion", check_conversion, gen=conv_cases, quick=200, thorough=3000, shards=4,
+        quick=150, thorough=1500, shards=4, doc="Svm / Evm vs harness von Mises at the integration points, element mean"),
+    Sub("node_element_conversion", check_conversion, gen=conv_cases, quick=300, thorough=3000, shards=4,
         doc="Results_Reshape_values / Get_Node_Values / Result(nodeValues) preserve constant fields (value and shape)"),
-    Sub("energy", check_energy, gen=_sims("elastic", "elastic", "phasefield", "beam", "thermal", "weakforms"), quick=100,
+    Sub("energy", check_energy, gen=_sims("elastic", "elastic", "phasefield", "beam", "thermal", "weakforms"), quick=140,
         thorough=1200, shards=4, doc="Wdef, Wdef_e.sum(), Calc_Energy vs 1/2 u'Ku; beam nodal forces vs K u, internal forces vs D B u"),
-    Sub("reactions", check_reactions, gen=reaction_cases, quick=80, thorough=1000, shards=4,
+    Sub("reactions", check_reactions, gen=reaction_cases, quick=120, thorough=1000, shards=4,
         doc="sum of Calc_Reaction on a clamped patch + sum of the applied loads = 0 per direction"),
 ]
